@@ -194,3 +194,14 @@ prop("C17", "Resume bookkeeping maintenance never loses the live resume position
        "quick": {"checks": 640, "shards": 16, "timeout": 900},
        "thorough": {"checks": 20000, "shards": 16, "timeout": 7200}}],
      BASE_ASSUME + ["fake/ interpreting double (HSET/HGET/HGETALL/HDEL/EXISTS/INFO keyspace), crash = connection death after the k-th request", "gc reads the wall clock: generated ages keep >= 2 minutes distance from the threshold"])
+
+prop("C06", "Each source (re)connection continues the stream gap-free or takes a snapshot", "exploration",
+     "a case = source state (same replication id | failover exposing the previous id and a switch offset | brand-new id; master offset 200-3000; backlog start anywhere; the master keeps producing 40-300 bytes while a replica is attached) x the target's stored position (none | under the current, previous or an unknown id; offset anywhere incl. switch offset +-1, backlog start -2..0, master offset -1..+5) "
+     "x cache pre-state produced by the real writers (empty | log only | snapshot + log; labelled and filled with the current, the previous or an unrelated history; range anywhere relative to the position) x backend (disk | memory). The real RedisInput runs against the PSYNC double (admission rule of masterTryPartialResynchronization) with a stub Output that hands out the stored position, adopts the snapshot offset after a snapshot (as sendRdb does) and records every reader it is given. "
+     "non-trivial = distinct case in which replay continued from the stored position with a cache range that does not end at that position, or a cached snapshot was replayed. "
+     "Oracle: first reader is a log reader => a position was stored, it is a point of the source's current history (current id, or previous id at/below the switch offset), the reader starts exactly there, a CONTINUE was granted, and every delivered byte equals the current history's byte function; first reader is a snapshot => complete, byte-identical to what the source sent (or to the cached snapshot of the current history), followed by a log reader at the snapshot offset with the current history's bytes; PSYNC ? only with -1.",
+     [{"pkg": "c06", "test": "TestC06",
+       "quick": {"checks": 1600, "shards": 8, "timeout": 900},
+       "thorough": {"checks": 48000, "shards": 16, "timeout": 7200}}],
+     CACHE_ASSUME + ["fake/Source: PSYNC admission exactly as masterTryPartialResynchronization (offset = replica offset + 1, replid2 valid up to second_replid_offset, backlog window), FULLRESYNC with '\\n' keep-alive, $len snapshot, live stream",
+                     "stub Output models RedisOutput.StartPoint/SetRunId/sendRdb bookkeeping"], max_inconclusive=2)
